@@ -3,7 +3,7 @@ _TYPES = '{"ollama", "vllm", "vllm-mlx", "sglang", "lm-studio", "llamacpp", "lem
 
 
 def _pg(ep, prefixes, types, **kw):
-    p = {"EP": ep, "Prefixes": prefixes, "Types": types, "Focus": "FALSE", "Strats": '{"plain"}'}
+    p = {"EP": ep, "Prefixes": prefixes, "Types": types, "Focus": "FALSE", "Strats": '{"plain"}', "DropFocus": "FALSE"}
     p.update(kw)
     return {"module": "Provider", "cfg": "Provider_gen.cfg", "params": p}
 
@@ -21,12 +21,17 @@ _FOCUS = dict(_pg('{"e1", "e2", "e3"}', '{"ollama", "vllm"}', '{"ollama", "vllm"
 _LENIENT = dict(_pg('{"e1", "e2"}', '{"ollama", "vllm", "openai"}', '{"ollama", "vllm"}', Strats='{"disc_all"}'), always=True)
 
 
+# one endpoint re-lists without the model every endpoint shares: a provider's listing must not keep showing it
+# when only endpoints of another kind still have it
+_DROP = dict(_pg('{"e1", "e2"}', '{"ollama", "vllm", "openai"}', '{"ollama", "vllm"}', DropFocus="TRUE"), always=True)
+
+
 def register(PROPS, HARNESS_PKGS):
     part = {
         "name": "provider",
         "mc": [{"module": "Provider", "cfg": "Provider_mc.cfg"}],
-        "quick": {"gen": [_pg('{"e1", "e2"}', _PREFIXES, _TYPES), _PAIRS, _FOCUS, _LENIENT], "sample": 400},
-        "thorough": {"gen": [_pg('{"e1", "e2", "e3"}', _PREFIXES, _TYPES), _PAIRS, _FOCUS, _LENIENT,
+        "quick": {"gen": [_pg('{"e1", "e2"}', _PREFIXES, _TYPES), _PAIRS, _FOCUS, _LENIENT, _DROP], "sample": 400},
+        "thorough": {"gen": [_pg('{"e1", "e2", "e3"}', _PREFIXES, _TYPES), _PAIRS, _FOCUS, _LENIENT, _DROP,
                              _pg('{"e1", "e2", "e3"}', _PREFIXES, _TYPES, Focus="TRUE")], "sample": 5000},
         "pkg": "internal/app", "test": "TestVerif_Provider",
         "harness_files": ["stack_test.go", "dispatch_test.go", "routing_test.go", "provider_test.go"],
